@@ -502,3 +502,240 @@ func ruleSrv(c *Ctx) {
 		R.Fail("O3", "srv.(*Orchestrator).Service", "-", "not found")
 	}
 }
+
+// ruleO4: a service that starts other services under its own context keeps
+// running until they have returned. Returning from Run makes the service's run
+// goroutine cancel that context (S2), which stops every member at once.
+func ruleO4(c *Ctx) {
+	R := c.R
+	p := c.P
+	R.Rule("O4", "a Run function in package srv that starts another Service with Run's own context awaits that service before it returns — Wait() after Start in the starting goroutine, or the service's Wait registered in a queue whose entries Run itself invokes and joins before returning (returning from Run cancels the context the members share)", 2)
+	for _, f := range p.FuncsIn("srv") {
+		info := f.Info()
+		ast.Inspect(f.Body, func(x ast.Node) bool {
+			cl, ok := x.(*ast.CompositeLit)
+			if !ok {
+				return true
+			}
+			tv, ok := info.Types[cl]
+			if !ok || !typeIs(tv.Type, "srv", "Service") {
+				return true
+			}
+			for _, el := range cl.Elts {
+				kv, ok := el.(*ast.KeyValueExpr)
+				if !ok {
+					continue
+				}
+				if k, ok := kv.Key.(*ast.Ident); !ok || k.Name != "Run" {
+					continue
+				}
+				lit, ok := kv.Value.(*ast.FuncLit)
+				if !ok {
+					continue
+				}
+				run := p.byLit[lit]
+				if run == nil {
+					continue
+				}
+				checkRunAwaits(c, run)
+			}
+			return true
+		})
+	}
+}
+
+func checkRunAwaits(c *Ctx, run *Func) {
+	R := c.R
+	p := c.P
+	info := run.Info()
+	ctxObj := paramObj(run, 0)
+	var all []*Func
+	var collect func(g *Func)
+	collect = func(g *Func) {
+		all = append(all, g)
+		for _, l := range g.Lits {
+			collect(l)
+		}
+	}
+	collect(run)
+	for _, g := range all {
+		fl := newFlow(g)
+		walkNoLit(g.Body, func(x ast.Node) bool {
+			start, ok := x.(*ast.CallExpr)
+			if !ok || callName(info, start) != "srv.(*Service).Start" || len(start.Args) != 1 {
+				return true
+			}
+			if id, ok := ast.Unparen(start.Args[0]).(*ast.Ident); !ok || ctxObj == nil || info.Uses[id] != ctxObj {
+				return true // started under some other context: Run's return does not cancel it
+			}
+			member := exprStr(recvExpr(start))
+			at := fmt.Sprintf("%s/start(%s)", run.Name, member)
+			pos := p.Position(start.Pos())
+			// (a) awaited in the same goroutine
+			direct := false
+			var queue types.Object
+			walkNoLit(g.Body, func(y ast.Node) bool {
+				if call, ok := y.(*ast.CallExpr); ok && callName(info, call) == "srv.(*Service).Wait" && exprStr(recvExpr(call)) == member && fl.Dominates(start, call) {
+					direct = true
+				}
+				return true
+			})
+			// the registration may sit in a deferred literal of the starting goroutine
+			ast.Inspect(g.Body, func(y ast.Node) bool {
+				call, ok := y.(*ast.CallExpr)
+				if !ok {
+					return true
+				}
+				switch callName(info, call) {
+				case "pubsub.(*Queue).Add":
+					// Q.Add(member.Wait)
+					if len(call.Args) == 1 {
+						if se, ok := ast.Unparen(call.Args[0]).(*ast.SelectorExpr); ok && exprStr(se.X) == member {
+							if s := info.Selections[se]; s != nil && s.Kind() == types.MethodVal && fname(s.Obj().(*types.Func).Origin()) == "srv.(*Service).Wait" {
+								if id, ok := ast.Unparen(recvExpr(call)).(*ast.Ident); ok {
+									queue = info.Uses[id]
+								}
+							}
+						}
+					}
+				}
+				return true
+			})
+			if direct {
+				R.OK("O4", at, pos, "Start is followed by "+member+".Wait() in the same goroutine")
+				return true
+			}
+			if queue == nil {
+				R.Fail("O4", at, pos, fmt.Sprintf("%s starts %s with Run's own context and neither awaits it nor registers its Wait: when Run returns the service's context is cancelled and %s is stopped at once, although neither it nor the group's context ended", run.Name, member, member))
+				return true
+			}
+			// (b) the registered waiters are invoked and joined inside Run itself
+			why, ok := runInvokesWaiters(p, run, queue)
+			if ok {
+				R.OK("O4", at, pos, why)
+			} else {
+				R.Fail("O4", at, pos, fmt.Sprintf("%s starts %s with Run's own context and registers its Wait in %s, but Run %s: Run returns as soon as the members have been started, the service then cancels the shared context and every member is stopped at once (they are only awaited afterwards)", run.Name, member, queue.Name(), why))
+			}
+			return true
+		})
+	}
+}
+
+// runInvokesWaiters: in run's own body there is a loop over q.Iterator() that
+// invokes every value (directly or in a goroutine it starts), followed by a
+// wait-group join that dominates every return after the loop.
+func runInvokesWaiters(p *Prog, run *Func, q types.Object) (string, bool) {
+	info := run.Info()
+	var iter types.Object
+	walkNoLit(run.Body, func(x ast.Node) bool {
+		as, ok := x.(*ast.AssignStmt)
+		if !ok || len(as.Lhs) != 1 || len(as.Rhs) != 1 {
+			return true
+		}
+		call, ok := ast.Unparen(as.Rhs[0]).(*ast.CallExpr)
+		if !ok || callName(info, call) != "pubsub.(*Queue).Iterator" {
+			return true
+		}
+		if id, ok := ast.Unparen(recvExpr(call)).(*ast.Ident); ok && info.Uses[id] == q {
+			if l, ok := as.Lhs[0].(*ast.Ident); ok {
+				iter = info.Defs[l]
+				if iter == nil {
+					iter = info.Uses[l]
+				}
+			}
+		}
+		return true
+	})
+	if iter == nil {
+		return "never iterates over " + q.Name(), false
+	}
+	var loop *ast.ForStmt
+	walkNoLit(run.Body, func(x ast.Node) bool {
+		fs, ok := x.(*ast.ForStmt)
+		if !ok || fs.Cond == nil {
+			return true
+		}
+		if call, ok := ast.Unparen(fs.Cond).(*ast.CallExpr); ok && callName(info, call) == "fun.(*Iterator).Next" {
+			if id, ok := ast.Unparen(recvExpr(call)).(*ast.Ident); ok && info.Uses[id] == iter {
+				loop = fs
+			}
+		}
+		return true
+	})
+	if loop == nil {
+		return "has no loop over the waiters", false
+	}
+	// the loop body invokes iter.Value(): directly, or as the argument of a go literal that calls its parameter
+	invoked := false
+	ast.Inspect(loop.Body, func(x ast.Node) bool {
+		call, ok := x.(*ast.CallExpr)
+		if !ok {
+			return true
+		}
+		isValue := func(e ast.Expr) bool {
+			vc, ok := ast.Unparen(e).(*ast.CallExpr)
+			if !ok || callName(info, vc) != "fun.(*Iterator).Value" {
+				return false
+			}
+			id, ok := ast.Unparen(recvExpr(vc)).(*ast.Ident)
+			return ok && info.Uses[id] == iter
+		}
+		if isValue(call.Fun) {
+			invoked = true
+		}
+		if lit, ok := ast.Unparen(call.Fun).(*ast.FuncLit); ok {
+			for i, a := range call.Args {
+				if !isValue(a) {
+					continue
+				}
+				// parameter i of the literal is called inside it
+				n := 0
+				for _, fld := range lit.Type.Params.List {
+					for _, nm := range fld.Names {
+						if n == i {
+							pobj := info.Defs[nm]
+							ast.Inspect(lit.Body, func(y ast.Node) bool {
+								if ic, ok := y.(*ast.CallExpr); ok {
+									if id, ok := ast.Unparen(ic.Fun).(*ast.Ident); ok && info.Uses[id] == pobj {
+										invoked = true
+									}
+								}
+								return true
+							})
+						}
+						n++
+					}
+				}
+			}
+		}
+		return true
+	})
+	if !invoked {
+		return "iterates over the waiters without calling them", false
+	}
+	// a join after the loop dominates every later return
+	fl := newFlow(run)
+	var join ast.Node
+	walkNoLit(run.Body, func(x ast.Node) bool {
+		if call, ok := x.(*ast.CallExpr); ok && call.Pos() > loop.End() {
+			if _, isWait := isWaitCall(info, call); isWait && join == nil {
+				join = call
+			}
+		}
+		return true
+	})
+	if join == nil {
+		return "starts the waiters but does not join them before returning", false
+	}
+	ok := true
+	walkNoLit(run.Body, func(x ast.Node) bool {
+		if rs, isRet := x.(*ast.ReturnStmt); isRet && rs.Pos() > loop.End() && !fl.Dominates(join, rs) {
+			ok = false
+		}
+		return true
+	})
+	if !ok {
+		return "can return after the waiter loop without the join", false
+	}
+	return fmt.Sprintf("the member's Wait is registered in %s; Run calls every registered waiter and joins them (%s) before it returns", q.Name(), p.Position(join.Pos())), true
+}
